@@ -430,6 +430,33 @@ def invalid_cases():
         n = edzed.Not('n').connect('a')
         edzed.Input('a', initdef=0, on_output=edzed.Event(n))
 
+    def cblock_name_any_then_sblock():
+        # the same name referenced first where any block is accepted (IfOutput control block)
+        # and then where a sequential block is required (event destination)
+        edzed.Not('gate').connect('a')
+        edzed.Input('b', initdef=0)
+        edzed.Input('a', initdef=0, on_output=edzed.Event(
+            'b', efilter=(edzed.not_from_undef, edzed.IfOutput('gate'))))
+        edzed.Input('c', initdef=0, on_output=edzed.Event('gate', efilter=edzed.not_from_undef))
+
+    def cblock_name_add_output_then_ifnotinit():
+        f = getattr(edzed, 'NotIfInitialized', None) or getattr(edzed, 'IfNotIitialized')
+        edzed.Not('gate').connect('a')
+        edzed.Input('b', initdef=0)
+        edzed.Input('a', initdef=0, on_output=edzed.Event(
+            'b', efilter=(edzed.not_from_undef, edzed.DataEdit.add_output('g', 'gate'))))
+        edzed.Input('c', initdef=0, on_output=edzed.Event(
+            'b', efilter=(edzed.not_from_undef, f('gate'))))
+
+    def sblock_name_then_cblock_required():
+        # a sequential block's name where a combinational one cannot be (control of an event
+        # is fine) - the reverse order of the first case
+        edzed.Not('gate').connect('a')
+        edzed.Input('c', initdef=0, on_output=edzed.Event('gate', efilter=edzed.not_from_undef))
+        edzed.Input('b', initdef=0)
+        edzed.Input('a', initdef=0, on_output=edzed.Event(
+            'b', efilter=(edzed.not_from_undef, edzed.IfOutput('gate'))))
+
     def filter_ctrl_unknown():
         edzed.Input('b', initdef=0)
         edzed.Input('a', initdef=0, on_output=edzed.Event('b', efilter=edzed.IfOutput('nosuch')))
@@ -538,7 +565,8 @@ def invalid_cases():
     return [(f.__name__, f) for f in (
         unknown_input, unknown_not, double_underscore_not, foreign_block, foreign_block_same_name,
         foreign_event_dest, event_dest_unknown,
-        event_dest_cblock, event_dest_cblock_obj, filter_ctrl_unknown, ifnotinit_cblock,
+        event_dest_cblock, event_dest_cblock_obj, cblock_name_any_then_sblock,
+        cblock_name_add_output_then_ifnotinit, sblock_name_then_cblock_required, filter_ctrl_unknown, ifnotinit_cblock,
         not_unconnected, not_two_inputs, override_missing, override_group, override_empty_group,
         override_empty_list, custom_single_given_empty_group, custom_group_given_single,
         custom_group_too_short, funcblock_mismatch,
